@@ -85,8 +85,9 @@ structure Cfg where
   /-- AS-IS datetime flavour only (unfixed tree): the spin branch executes `self.clock += …`, which reads
   the `clock` property and so re-acquires the non-reentrant `_lock` it already holds: the thread blocks. -/
   spinDeadlock : Bool := false
-  /-- the CatchScheduler's handler verdict -/
-  handler : Err → Bool := fun _ => false
+  /-- the CatchScheduler's handler verdict: `handler k e` is what the handler returns when it is called for the
+  `k`-th time (k = number of earlier calls) with exception `e` — an arbitrary, possibly stateful callable -/
+  handler : Nat → Err → Bool := fun _ _ => false
 
 structure St where
   clock : Int := 0
@@ -154,7 +155,7 @@ def invoke (cfg : Cfg) (x : Item) (s : St) : St × Option Err :=
   | (s1, some e) =>
     if x.wrapped then
       let s2 := { s1 with hlog := s1.hlog ++ [e] }     -- `parent._handler(ex)`
-      if cfg.handler e then (s2, none)                  -- `return Disposable()`
+      if cfg.handler s1.hlog.length e then (s2, none)                  -- `return Disposable()`
       else (s2, some e)                                 -- `raise`
     else (s1, some e)
 
